@@ -468,6 +468,36 @@ def c01h(ctx):
                 ctx.fail(o, cc, "execute_query publishes a value together with the fingerprint of another value")
 
 
+def _non_monotone_writes(b, op_):
+    """Follows the bool operand back through plain copies; every assignment on the way must be a constant, a copy, or
+    `flag = flag | x` (which can only raise it).  Returns descriptions of the other assignments."""
+    if op_.get("c") is not None:
+        return []
+    chain, work, bad = set(), [op_local(op_)], []
+    while work:
+        l = work.pop()
+        if l is None or l in chain:
+            continue
+        chain.add(l)
+        for a in b.assigns(lambda st, l=l: st["lhs"][0] == l and not st["lhs"][1]):
+            rv = a.node["rv"]
+            if rv["k"] == "use":
+                if rv["op"].get("c") is None:
+                    work.append(op_local(rv["op"]))
+            elif rv["k"] == "bin" and rv["op"] in ("BitOr",) and (op_local(rv["a"]) == l or op_local(rv["b"]) == l):
+                pass
+            elif rv["k"] == "bin" and rv["op"] in ("BitOr",):
+                work.append(op_local(rv["a"]))   # a | b of two flags: both must be monotone themselves
+                work.append(op_local(rv["b"]))
+            else:
+                bad.append("%s at line %d" % (rv["k"] + (":" + rv["op"] if rv["k"] == "bin" else ""), a.line))
+        # a value produced by a call or taken out of another value (no assignment found above)
+        for s_ in b.calls():
+            if s_.node["dest"] and s_.node["dest"][0] == l and not s_.node["dest"][1]:
+                bad.append("result of %s" % short(s_.node["fn"]["path"]))
+    return bad
+
+
 def c01i(ctx):
     """The repair decision aggregates what was learnt about *all* forward edges: `repair_transitive_firewall_callees`
     is a sticky flag (some callee's firewall set changed) and `cleaned_edges` a growing list.  A flag that takes the
@@ -486,10 +516,10 @@ def c01i(ctx):
                 if f == "repair_transitive_firewall_callees":
                     n += 1
                     ctx.touch(b)
-                    bad = [x for x in df.origins_of_operand(b, op_) if x.kind != "const"]
+                    bad = _non_monotone_writes(b, op_)
                     if bad:
-                        ctx.fail(o, a, "%s: `repair_transitive_firewall_callees` takes a per-callee value (%s) instead of being raised to true and left there: "
-                                 "a later callee resets what an earlier one demanded" % (b.name, ", ".join(sorted({short(x.callee() or "") if x.kind == "call" else x.kind for x in bad}))))
+                        ctx.fail(o, a, "%s: `repair_transitive_firewall_callees` takes a per-callee value (%s) instead of being raised to true (or OR-ed) and left "
+                                 "there: a later callee resets what an earlier one demanded" % (b.name, ", ".join(sorted(bad))))
                 elif f == "cleaned_edges":
                     n += 1
                     os_ = list(df.origins_of_operand(b, op_))
@@ -501,8 +531,270 @@ def c01i(ctx):
         ctx.fail(o, "(program)", "expected >= 5 accumulator fields in the *Decision values of repair.rs, found %d" % n)
 
 
+def c01j(ctx):
+    """A node's transitive-firewall set is  U over its callees c of  ({c} if c is a firewall else tfc(c)).  It is built at
+    two sibling sites (while executing: QueryComputing::caller_observe_tfc_callees; when a node is verified clean but a
+    callee's set changed: should_recompute_query).  Both must have the two halves under the right kind test: if the
+    `inherit` half is lost the node stops repairing firewalls below non-firewall callees, if the `itself` half is lost it
+    never repairs the firewall it calls — later changes below them are missed."""
+    prog = ctx.prog
+    SET_ADD = r"HashSet::<[^>]*>::(insert|insert_sync)$|Extend::extend$"
+    def through_receivers(b, op_, depth=8):
+        """origins of op_, looking through the receivers of adaptor calls (iter(), copied(), deref() ...)"""
+        out, work, seen = [], [(op_, depth)], set()
+        while work:
+            o_, d = work.pop()
+            for x in df.origins_of_operand(b, o_):
+                out.append(x)
+                if x.kind == "call" and d > 0 and x.site.node["args"] and (x.site.bb, d) not in seen:
+                    seen.add((x.site.bb, d))
+                    work.append((x.site.node["args"][0], d - 1))
+        return out
+
+    def halves(b):
+        own, inherit = [], []
+        for s_ in b.calls_to(SET_ADD):
+            os_ = through_receivers(b, s_.node["args"][1])
+            if any(x.kind == "call" and (x.callee() or "").endswith("::transitive_firewall_callees") for x in os_):
+                inherit.append(s_)
+            elif os_:
+                own.append(s_)
+        return own, inherit
+    # ---- site B: match on the callee's kind
+    o = ctx.ob("C01.j", "tfc-composition/while-executing", "K4+K8",
+               "caller_observe_tfc_callees adds the callee itself exactly for Firewall callees and the callee's own set exactly for Normal/Projection callees")
+    b = ctx.touch(prog.body("QueryComputing::caller_observe_tfc_callees"))
+    own, inherit = halves(b)
+    o.sites = len(own) + len(inherit)
+    adt = next((k for k in prog.adts if k.endswith("::ExecutionStyle")), None)
+    names = [v["name"] for v in prog.adts[adt]["variants"]] if adt else []
+    edges = df.variant_edges(b, "::ExecutionStyle")
+    def variants_reaching(site):
+        out = set()
+        for sb, tb, v, c in edges:
+            if v != "otherwise" and (site.bb == tb or site.bb in b.reachable([tb])):
+                out.add(names[int(v)] if names and int(v) < len(names) else str(v))
+        return out
+    if not own or not inherit or not edges:
+        ctx.fail(o, Site(b, 0, 0), "caller_observe_tfc_callees must both add a firewall callee itself and inherit a non-firewall callee's set "
+                 "(found %d / %d such insertions, %d kind tests)" % (len(own), len(inherit), len(edges)))
+    else:
+        for s_ in own:
+            if variants_reaching(s_) != {"Firewall"}:
+                ctx.fail(o, s_, "the callee itself is added to the firewall set for callees of kind %s (must be exactly Firewall)" % sorted(variants_reaching(s_)))
+            if not any(x.kind == "param" for x in df.origins_of_operand(b, s_.node["args"][1])):
+                ctx.fail(o, s_, "what is added under the Firewall arm is not the callee's id")
+        for s_ in inherit:
+            if variants_reaching(s_) != {"Normal", "Projection"}:
+                ctx.fail(o, s_, "a callee's own firewall set is inherited for callees of kind %s (must be exactly Normal and Projection)" % sorted(variants_reaching(s_)))
+    # ---- site A: if kind.is_firewall() { insert(x) } else { extend(tfc(x)) }
+    o = ctx.ob("C01.j", "tfc-composition/when-verified-clean", "K4+K8",
+               "should_recompute_query rebuilds the set with the callee itself under is_firewall() and the callee's set otherwise")
+    b = ctx.touch(prog.coroutine_of("Snapshot::should_recompute_query"))
+    own, inherit = halves(b)
+    o.sites = len(own) + len(inherit)
+    is_fw = lambda c: c.kind == "call" and c.callee.endswith("QueryKind::is_firewall")
+    if not own or not inherit:
+        ctx.fail(o, Site(b, 0, 0), "should_recompute_query must both add a firewall callee itself and inherit a non-firewall callee's set "
+                 "(found %d / %d such insertions)" % (len(own), len(inherit)))
+    else:
+        for s_, want in [(x, True) for x in own] + [(x, False) for x in inherit]:
+            g = df.guarded_by(b, s_.bb, is_fw)
+            pol = {(v != 0) != c.negated for sb, v, tb, c in g if v != "otherwise"} | {(not c.negated) for sb, v, tb, c in g if v == "otherwise"}
+            if pol != {want}:
+                ctx.fail(o, s_, "%s under `is_firewall() == %s` (found guards: %s)" % (
+                    "the callee itself must be added" if want else "the callee's own set must be inherited", str(want).lower(), sorted(pol) or "none"))
+
+
+def _flag_writes(b, op_):
+    """[(site, operand)] of the assignments that can give the bool operand its value (through plain copies)."""
+    start = op_local(op_)
+    seen, work, out = set(), [start], []
+    while work:
+        l = work.pop()
+        if l in seen or l is None:
+            continue
+        seen.add(l)
+        for a in b.assigns(lambda st, l=l: st["lhs"][0] == l and not st["lhs"][1] and st["rv"]["k"] == "use"):
+            src = a.node["rv"]["op"]
+            out.append((a, src))
+            if src.get("c") is None and op_local(src) is not None:
+                work.append(op_local(src))
+    return out
+
+
+def c01k(ctx):
+    """How strictly a callee is re-verified (`pedantic_repair`) is inherited down the call chain, and a recomputation
+    triggered by backward projection is always strict.  A constant in its place silently weakens every repair below."""
+    prog = ctx.prog
+    o = ctx.ob("C01.k", "pedantic-repair/inherited-not-constant", "K5",
+               "new_with_pedantic_repair receives the caller's strictness: check_callee hands on its parameter; execute_query the caller's flag, true for backward projection")
+    sites = prog.callers_of(r"QueryCaller::new_with_pedantic_repair$")
+    o.sites = len(sites)
+    if len(sites) < 2:
+        ctx.fail(o, "(program)", "expected >= 2 QueryCaller::new_with_pedantic_repair call sites, found %d" % len(sites))
+    for s_ in sites:
+        b = ctx.touch(s_.body)
+        os_ = list(df.origins_deep(prog, b, s_.node["args"][3]))
+        if "check_callee" in b.name:
+            if not os_ or any(x.kind != "param" for x in os_):
+                ctx.fail(o, s_, "check_callee re-verifies its callee with a strictness that is not the one it was asked for (origins: %s)" % sorted(str(x) for x in os_))
+        elif "execute_query" in b.name:
+            if not any(x.kind == "call" and (x.callee() or "").endswith("QueryCaller::pedantic_repair") for x in os_):
+                ctx.fail(o, s_, "execute_query does not hand the caller's pedantic_repair flag on to the queries its executor makes")
+            trues = [a for a, src in _flag_writes(b, s_.node["args"][3]) if (src.get("c") or {}).get("s") == "true" or (src.get("c") or {}).get("v") in (1, True)]
+            edges = [(sb, tb) for sb, tb, v, c in df.variant_edges(b, "::CallerKind") if v != "otherwise" and _variant_name(prog, c.adt, v) == "BackwardProjectionPropagation"]
+            if not edges:
+                ctx.fail(o, s_, "execute_query does not distinguish CallerKind::BackwardProjectionPropagation when choosing the strictness")
+            elif not any(any(a.bb == tb or (b.edge_dominates((sb, tb), a.bb) and a.bb in b.reachable([tb])) for sb, tb in edges) for a in trues):
+                ctx.fail(o, s_, "a recomputation triggered by backward projection is not strict (pedantic_repair is not `true` on the BackwardProjectionPropagation arm)")
+        else:
+            if any(x.kind == "const" for x in os_) and len(os_) == 1:
+                ctx.fail(o, s_, "%s fixes pedantic_repair to a constant" % b.name)
+    # the decision argument `clean_existing_forward_edges` of the publication is `this is a recomputation`, not a constant
+    o2 = ctx.ob("C01.k", "execute_query/dirty-edges-cleaned-exactly-on-recompute", "K5",
+                "computing_lock_to_computed is told to clean the old dirty edges exactly when the execution is a recomputation")
+    cs = prog.callers_of(r"computing_lock_to_computed$")
+    o2.sites = len(cs)
+    for s_ in cs:
+        os_ = list(df.origins_deep(prog, s_.body, s_.node["args"][8]))
+        if not os_ or not all(x.kind == "call" and re.search(r"PartialEq::(eq|ne)$", x.callee() or "") for x in os_):
+            ctx.fail(o2, s_, "clean_existing_forward_edges is %s instead of `execute_query_for == RecomputeQuery`: stale dirty marks survive a recomputation "
+                     "(or are cleaned for a fresh node)" % sorted(str(x) for x in os_))
+    if len(cs) != 1:
+        ctx.fail(o2, "(program)", "expected exactly one call of computing_lock_to_computed, found %d" % len(cs))
+
+
+TRUNCATING = re.compile(r"Iterator::(take|skip|step_by|take_while|skip_while|nth|nth_back)$|slice::<impl \[T\]>::(first|last|split_first|split_last|get)$")
+
+
+def c01l(ctx):
+    """Dirty marking, repair of firewalls / unordered groups and backward projection fan work out over *all* elements of
+    a list (backward edges, firewall set, callee group, projection list).  A truncating adaptor on such an iteration
+    silently drops the tail; nothing else in the code would notice."""
+    prog = ctx.prog
+    o = ctx.ob("C01.l", "fan-out/no-truncating-adaptor", "K3",
+               "no take/skip/step_by/take_while/skip_while/nth on an iterator inside the engine's fan-out bodies (those that spawn tasks or submit dirty tasks)")
+    n = fan = 0
+    FAN = r"JoinSet::<T>::spawn$|tokio::task::spawn::spawn$|DirtyWorker::<C>::submit_task$|Injector::<T>::push$"
+    for b in prog.all_bodies(["qbice"]):
+        if "computation_graph" not in b.file:
+            continue
+        if not b.calls_to(FAN):
+            continue
+        fan += 1
+        ctx.touch(b)
+        for s_ in b.calls():
+            n += 1
+            if re.search(r"Iterator::(take|skip|step_by|take_while|skip_while|nth|nth_back)$", s_.node["fn"]["path"]):
+                ctx.fail(o, s_, "%s truncates an iteration with %s in a body that fans work out: the elements cut off are never marked / repaired / re-projected" % (
+                    b.name, short(s_.node["fn"]["path"])))
+    o.sites = n
+    if fan < 5:
+        ctx.fail(o, "(program)", "expected >= 5 fan-out bodies in the engine, found %d" % fan)
+
+
+def c01m(ctx):
+    """While a query executes, its dependencies live in two places: the set `callee_queries` (who) and the list
+    `callee_order` (in which order; this is what gets stored and later repaired in that order).  Every change of the
+    set must be mirrored in the list on every path, else the stored order misses a dependency (never re-verified) or keeps
+    an aborted one."""
+    prog = ctx.prog
+    o = ctx.ob("C01.m", "callee-set-and-order-move-together", "K2",
+               "every insert/remove/clear on QueryComputing.callee_queries is paired on every path (before or after) with CalleeOrder::push/abort_callee/clear")
+    PARTNER = {"insert": r"CalleeOrder::push$", "remove": r"CalleeOrder::abort_callee$", "clear": r"CalleeOrder::clear$"}
+    n = 0
+    for b in prog.all_bodies(["qbice"]):
+        writes = []
+        for s_ in b.calls_to(r"scc::hash_map::HashMap::<K, V, H>::(remove_sync|clear_sync|insert_sync|upsert_sync|remove_async|insert_async)$"):
+            if "callee_queries" in df.access_path(b, s_.node["args"][0]):
+                nm = s_.node["fn"]["path"].rsplit("::", 1)[-1]
+                writes.append((s_, "remove" if nm.startswith("remove") else "clear" if nm.startswith("clear") else "insert"))
+        for s_ in b.calls_to(r"VacantEntry::<[^>]*>::insert_entry$"):
+            if any(x.kind == "call" and "callee_queries" in df.access_path(b, x.site.node["args"][0]) for x in df.origins_of_operand(b, s_.node["args"][0])
+                   if x.kind == "call" and x.site.node["args"]):
+                writes.append((s_, "insert"))
+        for s_, kind in writes:
+            n += 1
+            ctx.touch(b)
+            partners = b.calls_to(PARTNER[kind])
+            nxt = s_.node.get("t")
+            before = any(b.site_dominates(p_, s_) for p_ in partners)
+            bad = [] if before else (b.must_pass([nxt], [p_.bb for p_ in partners]) if nxt is not None else [])
+            if not partners or bad:
+                ctx.fail(o, s_, "%s changes callee_queries (%s) but CalleeOrder::%s does not follow on every path: the recorded order and the dependency set disagree" % (
+                    b.name, kind, PARTNER[kind].split("::")[1].rstrip("$")))
+    o.sites = n
+    if n < 3:
+        ctx.fail(o, "(program)", "expected >= 3 writes to callee_queries (register, abort, clear), found %d" % n)
+
+
+def c01n(ctx):
+    prog = ctx.prog
+    # ---- the firewall-set comparison is made for every callee that is not itself a firewall
+    o = ctx.ob("C01.n", "check_callee/tfc-diff-for-non-firewall-callees", "K4",
+               "check_callee compares the callee's firewall-set fingerprint with the observed one exactly when the callee is not a firewall, and asks for a repair exactly when they differ")
+    b = ctx.touch(prog.coroutine_of("Snapshot::check_callee"))
+    cmp_ = [s_ for s_ in b.calls_to(r"core::cmp::PartialEq::(ne|eq)$")
+            if any(x.kind == "call" and (x.callee() or "").endswith("transitive_firewall_callees_fingerprint") for x in df.origins_of_operand(b, s_.node["args"][0]))
+            or any(x.kind == "call" and (x.callee() or "").endswith("transitive_firewall_callees_fingerprint") for x in df.origins_of_operand(b, s_.node["args"][1]))]
+    o.sites = len(cmp_)
+    if len(cmp_) != 1:
+        ctx.fail(o, Site(b, 0, 0), "expected exactly one comparison of transitive_firewall_callees_fingerprint() in check_callee, found %d" % len(cmp_))
+    else:
+        c_ = cmp_[0]
+        other = c_.node["args"][1]
+        if "seen_transitive_firewall_callees_fingerprint" not in df.access_path(b, other) and "seen_transitive_firewall_callees_fingerprint" not in df.access_path(b, c_.node["args"][0]):
+            ctx.fail(o, c_, "the callee's firewall-set fingerprint is not compared with the observed `seen_transitive_firewall_callees_fingerprint`")
+        g = df.guarded_by(b, c_.bb, lambda c: c.kind == "call" and c.callee.endswith("QueryKind::is_firewall"))
+        pol = {(v != 0) != c.negated for sb, v, tb, c in g if v != "otherwise"} | {(not c.negated) for sb, v, tb, c in g if v == "otherwise"}
+        if pol != {False}:
+            ctx.fail(o, c_, "the firewall-set comparison must be made exactly for callees with is_firewall() == false (guards found: %s): a changed set below a "
+                     "non-firewall callee would go unnoticed" % (sorted(pol) or "none"))
+        # the flag handed out in Cleaned { repair_transitive_firewall_callees } is raised under `differs`
+        raised = [a for a in b.assigns(lambda st: st["rv"]["k"] == "use" and (st["rv"]["op"].get("c") or {}).get("s") == "true" and not st["lhs"][1])
+                  if b.site_dominates(c_, a)]
+        ok = False
+        for a in raised:
+            gg = df.guarded_by(b, a.bb, lambda c: c.kind == "call" and c.site == c_)
+            want = c_.node["fn"]["path"].endswith("::ne")
+            if any(((v != 0) != c.negated) == want for sb, v, tb, c in gg if v != "otherwise") or any((not c.negated) == want for sb, v, tb, c in gg if v == "otherwise"):
+                ok = True
+        if not ok:
+            ctx.fail(o, c_, "no `repair_transitive_firewall_callees = true` under `the fingerprints differ`")
+    # ---- a chunk that was cancelled or asked for recomputation can never count as clean
+    o = ctx.ob("C01.n", "unordered-group/cancelled-chunk-means-recompute", "K2",
+               "in the join loop of an unordered group, a Recompute or Cancelled chunk result always raises the recompute flag before the next result is taken")
+    b = ctx.touch(prog.coroutine_of("Snapshot::recompute_decision_based_on_forward_edges"))
+    jn = b.calls_to(r"JoinSet::<T>::join_next$")
+    edges = [(sb, tb, _variant_name(prog, c.adt, v)) for sb, tb, v, c in df.variant_edges(b, "::ChunkedCalleeCheckDecision") if v != "otherwise"]
+    trues = b.assigns(lambda st: st["rv"]["k"] == "use" and (st["rv"]["op"].get("c") or {}).get("s") == "true" and not st["lhs"][1])
+    o.sites = len(edges)
+    if len(jn) != 1 or not {"Recompute", "Cancelled", "Cleaned"} <= {n_ for _, _, n_ in edges}:
+        ctx.fail(o, Site(b, 0, 0), "anchor missing: join loop over ChunkedCalleeCheckDecision results (join_next=%d, variants tested=%s)" % (len(jn), sorted({n_ for _, _, n_ in edges})))
+    else:
+        for sb, tb, nm in edges:
+            if nm in ("Recompute", "Cancelled"):
+                bad = b.must_pass([tb], [a.bb for a in trues], to_bbs=[jn[0].bb] + b.returns())
+                if bad:
+                    ctx.fail(o, Site(b, tb, 0), "a chunk that ended with %s can be taken for clean: the loop continues (or returns) without raising the recompute flag — "
+                             "the callees that chunk did not check are never re-verified" % nm)
+
+
+def _variant_name(prog, adt, v):
+    try:
+        return prog.adts[adt]["variants"][int(v)]["name"]
+    except Exception:
+        return str(v)
+
+
 def run(ctx):
     ctx.run_clause("C01.h", c01h)
+    ctx.run_clause("C01.k", c01k)
+    ctx.run_clause("C01.l", c01l)
+    ctx.run_clause("C01.m", c01m)
+    ctx.run_clause("C01.n", c01n)
+    ctx.run_clause("C01.j", c01j)
     ctx.run_clause("C01.i", c01i)
     for c, f in (("C01.a", c01a), ("C01.b", c01b), ("C01.c", c01c), ("C01.c", c01c_roles), ("C01.d", c01d), ("C01.e", c01e), ("C01.f", c01f), ("C01.g", c01g)):
         ctx.run_clause(c, f)
